@@ -58,7 +58,10 @@ pub fn raw(g: &Game) -> Value {
         "b": board,
         "stm": if s.white_to_move { "w" } else { "b" },
         "cast": cast,
-        "ep": s.en_passant,
+        // abstract en-passant file: 0..7, or 8 = none (every reader of the state byte tests `< 8`); the raw nibble is kept
+        // for the design-level comparison
+        "ep": if (0..8).contains(&s.en_passant) { s.en_passant } else { 8 },
+        "epraw": s.en_passant,
         "len": s.len,
         "wk": s.king_squares[0],
         "bk": s.king_squares[1],
